@@ -514,3 +514,143 @@ def c20_jobs(specs_mod, names, include_dir, prefix="", only_safety=False):
             jobs.append(dict(tag="corpus_c20_" + w[0], includes=[spec.emb + ".h"], include_dirs=[include_dir], preamble="",
                              wrappers=[w], prefix=prefix, unroll=300, only_safety=only_safety))
     return jobs
+
+
+# ---------------------------------------------------------------------------
+# C19: generated enum helpers (names <-> values, EnumIsKnown)
+
+STR_MAX = 48
+
+
+def _ext_strcmp(limit_arg=False):
+    """libc strcmp / strncmp on byte regions: compares up to the first difference or NUL (or n bytes);
+    every byte read must lie inside its region (bounds obligations)."""
+    def ext(encoder, args, m, r, where):
+        a, b = args[0], args[1]
+        n = args[2] if limit_arg else None
+        if n is not None and n.size() != 64:
+            n = z3.ZeroExt(64 - n.size(), n)
+        going = r            # still comparing (all previous bytes equal and non-NUL, within n)
+        result = enc.bv(0, 32)
+        decided = z3.BoolVal(False)
+        res_terms = []
+        bound = STR_MAX
+        # a constant side bounds the scan
+        for p_ in (a, b):
+            for (_, rg, off) in p_.alternatives():
+                pass
+        for i in range(bound + 1):
+            if n is not None:
+                going = z3.And(going, z3.UGT(n, enc.bv(i, 64)))
+            pa = enc.Ptr(a.region, a.off + enc.bv(i, 64), [(c, rg, o + enc.bv(i, 64)) for (c, rg, o) in a.alts] if a.alts else None)
+            pb = enc.Ptr(b.region, b.off + enc.bv(i, 64), [(c, rg, o + enc.bv(i, 64)) for (c, rg, o) in b.alts] if b.alts else None)
+            g = z3.simplify(going)
+            if z3.is_false(g):
+                break
+            encoder.safety.append(("bounds:%s:strcmp-a[%d]" % (where, i), "bounds", z3.And(g, z3.Not(encoder.in_bounds(pa, 1, False)))))
+            encoder.safety.append(("bounds:%s:strcmp-b[%d]" % (where, i), "bounds", z3.And(g, z3.Not(encoder.in_bounds(pb, 1, False)))))
+            m, ca = encoder.load(m, pa, 1)
+            m, cb = encoder.load(m, pb, 1)
+            diff = ca != cb
+            res_terms.append((z3.And(going, diff), z3.If(z3.ULT(ca, cb), enc.bv(-1, 32), enc.bv(1, 32))))
+            going = z3.And(going, z3.Not(diff), ca != 0)
+        else:
+            encoder.safety.append(("unwind:%s:strcmp-longer-than-%d" % (where, STR_MAX), "unwind", going))
+        for (c, v) in reversed(res_terms):
+            result = z3.If(c, v, result)
+        return result, m
+    return ext
+
+
+ENUM_EXTERNALS = {"strcmp": _ext_strcmp(False), "strncmp": _ext_strcmp(True)}
+
+
+class EnumSpec:
+    def __init__(self, name, ns, underlying, values, emb):
+        """values: ordered list of (declared name, value) exactly as written in the .emb."""
+        self.name, self.ns, self.underlying, self.values, self.emb = name, ns, underlying, values, emb
+        self.bits = int("".join(ch for ch in underlying if ch.isdigit()))
+        self.signed = not underlying.startswith("u")
+
+
+def enum_known_wrapper(es):
+    t = "::%s::%s" % (es.ns, es.name)
+    s = "  auto e = static_cast<%s>(static_cast<%s>(a0));\n" % (t, es.underlying)
+    s += "  O(0, ::%s::EnumIsKnown(e));\n  const char* nm = ::%s::TryToGetNameFromEnum(e);\n  O(1, nm != nullptr);\n" % (es.ns, es.ns)
+    s += "  if (nm) {\n"
+    for i, (nmk, _) in enumerate(es.values):
+        s += '    O(%d, strcmp(nm, "%s") == 0);\n' % (8 + i, nmk)
+    s += "  }\n"
+    # the C++ representation: underlying type and one enumerator per declared name with the declared value
+    s += "  O(2, (std::is_same<typename std::underlying_type<%s>::type, ::std::%s>::value));\n" % (t, es.underlying)
+    for i, (nmk, _) in enumerate(es.values):
+        s += "  O(%d, (uint64_t)(%s)static_cast<typename std::underlying_type<%s>::type>(%s::%s));\n" % (
+            40 + i, "int64_t" if es.signed else "uint64_t", t, t, nmk)
+    s += "  return 0;"
+    return s
+
+
+def enum_from_name_wrapper(es):
+    t = "::%s::%s" % (es.ns, es.name)
+    s = "  %s out = static_cast<%s>(0);\n" % (t, t)
+    s += "  bool ok = ::%s::TryToGetEnumFromName(reinterpret_cast<const char*>(p), &out);\n" % es.ns
+    s += "  if (ok) O(0, (uint64_t)(%s)static_cast<%s>(out));\n  return ok;" % ("int64_t" if es.signed else "uint64_t", es.underlying)
+    return s
+
+
+def _as64(es, v):
+    return enc.bv(v % (1 << 64), 64)
+
+
+def contract_enum_known(k, spec_ref):
+    es = _spec(spec_ref)
+    # the candidate is any value of the underlying type
+    raw = z3.Extract(es.bits - 1, 0, k.a0)
+    val = (z3.SignExt(64 - es.bits, raw) if es.signed else z3.ZeroExt(64 - es.bits, raw)) if es.bits < 64 else raw
+    declared = z3.Or([val == _as64(es, v) for (_, v) in es.values])
+    k.ensures("EnumIsKnown", k.obs_flag(0, declared))
+    k.ensures("TryToGetNameFromEnum.null-iff-undeclared", k.obs_flag(1, declared))
+    k.ensures("underlying-type-is-" + es.underlying, k.obs_flag(2, z3.BoolVal(True)))
+    for i, (nm, v) in enumerate(es.values):
+        k.ensures("enumerator-value[%s]" % nm, k.obs_eq(40 + i, z3.BoolVal(True), _as64(es, v)))
+    # the FIRST declared name having the value
+    for i, (nm, v) in enumerate(es.values):
+        first = all(v2 != v for (_, v2) in es.values[:i])
+        want = z3.And(val == _as64(es, v), z3.BoolVal(first))
+        k.ensures("TryToGetNameFromEnum.is[%s]" % nm, z3.Implies(declared, z3.And(k.outc(8 + i), (k.outv(8 + i) != 0) == want)))
+
+
+contract_enum_known.externals = ENUM_EXTERNALS
+
+
+def contract_enum_from_name(k, spec_ref):
+    es = _spec(spec_ref)
+    k.region("p", nonnull=True)
+    # the argument is a NUL-terminated string inside the buffer
+    k.requires(z3.And(z3.UGE(k.n, enc.bv(1, 64)), z3.ULE(k.n, enc.bv(STR_MAX, 64)), z3.Select(k.P0, k.n - 1) == 0))
+
+    def is_name(nm):
+        bs = nm.encode() + b"\0"
+        return z3.And(z3.UGE(k.n, enc.bv(len(bs), 64)), *[z3.Select(k.P0, enc.bv(i, 64)) == enc.bv(c, 8) for i, c in enumerate(bs)])
+    hits = [(is_name(nm), v) for (nm, v) in es.values]
+    k.ensures("returns-true-iff-a-declared-name", (k.ret == 1) == z3.Or([h for (h, _) in hits]))
+    for (nm, v), (h, _) in zip(es.values, hits):
+        k.ensures("value-of[%s]" % nm, z3.Implies(h, z3.And(k.outc(0), k.outv(0) == _as64(es, v))))
+    a = k.forall_off()
+    k.ensures("read-only", z3.Implies(z3.ULT(a, k.n), z3.Select(k.P1, a) == z3.Select(k.P0, a)))
+
+
+contract_enum_from_name.externals = ENUM_EXTERNALS
+
+
+def enum_jobs(specs_mod, include_dir, prefix="", only_safety=False):
+    import importlib
+    mod = importlib.import_module(specs_mod)
+    jobs = []
+    for n, es in mod.ENUMS.items():
+        ws = [("enum_known_" + n, enum_known_wrapper(es), "vlib.llvc.corpus:contract_enum_known", dict(spec_ref="%s:%s" % (specs_mod, "ENUM_" + n))),
+              ("enum_from_name_" + n, enum_from_name_wrapper(es), "vlib.llvc.corpus:contract_enum_from_name", dict(spec_ref="%s:%s" % (specs_mod, "ENUM_" + n)))]
+        for w in ws:
+            jobs.append(dict(tag="corpus_" + w[0], includes=[es.emb + ".h"], include_dirs=[include_dir], preamble="", wrappers=[w],
+                             prefix=prefix, unroll=80, only_safety=only_safety))
+    return jobs
